@@ -29,8 +29,9 @@ import (
 )
 
 type Case struct {
-	Flavour    string `json:"flavour"` // kinesis | s3
-	StepMs     int    `json:"step_ms"` // every failing attempt takes this long on the fake clock
+	Flavour    string `json:"flavour"`           // kinesis | s3
+	Sibling    bool   `json:"sibling,omitempty"` // a second worker of the same factory keeps completing batches meanwhile
+	StepMs     int    `json:"step_ms"`           // every failing attempt takes this long on the fake clock
 	MaxMinutes int    `json:"max_minutes"`
 }
 
@@ -38,22 +39,72 @@ type fakeClock struct{ now time.Time }
 
 func (c *fakeClock) Now() time.Time { return c.now }
 
-func policyOf(flavour string) (backoff.BackOff, error) {
+func policiesOf(flavour string, workers int) ([]backoff.BackOff, error) {
 	sh := shutdown.NewShutdownHandler()
 	written := make(chan *ordered_map.OrderedMap, 1)
 	statsCh := make(chan stats.Stat, 16)
-	in := []<-chan transport.Batch{make(chan transport.Batch)}
+	in := make([]<-chan transport.Batch, workers)
+	for i := range in {
+		in[i] = make(chan transport.Batch)
+	}
+	var out []backoff.BackOff
 	switch flavour {
 	case "kinesis":
-		ts := kinesis.New(sh, written, statsCh, 1, in, map[string]interface{}{kinesis.ConfVarStreamName: "s", kinesis.ConfVarAwsRegion: "us-east-1",
+		ts := kinesis.New(sh, written, statsCh, workers, in, map[string]interface{}{kinesis.ConfVarStreamName: "s", kinesis.ConfVarAwsRegion: "us-east-1",
 			kinesis.ConfVarAwsAccessKeyId: "", kinesis.ConfVarAwsSecretAccessKey: "", kinesis.ConfVarEndpoint: ""})
-		return (*ts[0]).(*ktrans.KinesisTransporter).VerifRetryPolicy(), nil
+		for _, t := range ts {
+			out = append(out, (*t).(*ktrans.KinesisTransporter).VerifRetryPolicy())
+		}
+		return out, nil
 	case "s3":
-		ts := s3.New(sh, written, statsCh, 1, in, map[string]interface{}{s3.ConfVarBucketName: "b", s3.ConfVarKeySpace: "", s3.ConfVarAwsRegion: "us-east-1",
+		ts := s3.New(sh, written, statsCh, workers, in, map[string]interface{}{s3.ConfVarBucketName: "b", s3.ConfVarKeySpace: "", s3.ConfVarAwsRegion: "us-east-1",
 			s3.ConfVarAwsAccessKeyId: "", s3.ConfVarAwsSecretAccessKey: "", s3.ConfVarEndpoint: "", s3.ConfVarBufMaxRuse: 1})
-		return (*ts[0]).(*strans.S3Transporter).VerifRetryPolicy(), nil
+		for _, t := range ts {
+			out = append(out, (*t).(*strans.S3Transporter).VerifRetryPolicy())
+		}
+		return out, nil
 	}
 	return nil, errors.New("unknown flavour")
+}
+
+func policyOf(flavour string) (backoff.BackOff, error) {
+	ps, err := policiesOf(flavour, 1)
+	if err != nil {
+		return nil, err
+	}
+	return ps[0], nil
+}
+
+// runSibling: two workers of the real factory; worker 1's sink keeps failing while worker 0 keeps
+// finishing healthy batches (each healthy batch resets worker 0's policy, as transportWithRetry and
+// backoff.Retry do).  Worker 1 must still run out of budget.  The real policy objects are used
+// (only their Clock is replaced), so a policy shared between the workers shows.
+func runSibling(c Case) (attempts int, gaveUp bool, err error) {
+	ps, err := policiesOf(c.Flavour, 2)
+	if err != nil {
+		return 0, false, err
+	}
+	e0, ok0 := ps[0].(*backoff.ExponentialBackOff)
+	e1, ok1 := ps[1].(*backoff.ExponentialBackOff)
+	if !ok0 || !ok1 {
+		return 0, false, fmt.Errorf("retry policies are %T / %T", ps[0], ps[1])
+	}
+	clk := &fakeClock{now: time.Unix(1700000000, 0)}
+	e0.Clock, e1.Clock = clk, clk
+	e0.Reset()
+	e1.Reset()
+	limit := time.Duration(c.MaxMinutes) * time.Minute
+	for clk.now.Sub(time.Unix(1700000000, 0)) < limit {
+		attempts++
+		clk.now = clk.now.Add(time.Duration(c.StepMs) * time.Millisecond)
+		e0.Reset() // the sibling worker starts (and finishes) another healthy batch
+		next := e1.NextBackOff()
+		if next == backoff.Stop {
+			return attempts, true, nil
+		}
+		clk.now = clk.now.Add(next)
+	}
+	return attempts, false, nil
 }
 
 // run drives backoff's own decision (NextBackOff compared with backoff.Stop, exactly what Retry
@@ -85,6 +136,17 @@ func run(c Case) (attempts int, gaveUp bool, maxElapsed time.Duration, err error
 }
 
 func monitor(c Case) []core.Violation {
+	if c.Sibling {
+		attempts, gaveUp, err := runSibling(c)
+		if err != nil {
+			return []core.Violation{{Property: "C17", Signature: "retry-policy-not-inspectable/" + c.Flavour, What: err.Error(), Case: c}}
+		}
+		if !gaveUp {
+			return []core.Violation{{Property: "C17", Signature: "retry-budget-never-exhausts-beside-a-healthy-worker/" + c.Flavour,
+				What: fmt.Sprintf("two %s workers from the real factory: the one whose sink keeps failing was still retrying after %d failed attempts over %d simulated minutes because the other worker's policy resets restart its budget (the workers share one retry policy object): the failing worker never stops and the termination signal is never raised", c.Flavour, attempts, c.MaxMinutes), Case: c}}
+		}
+		return nil
+	}
 	attempts, gaveUp, maxEl, err := run(c)
 	if err != nil {
 		return []core.Violation{{Property: "C17", Signature: "retry-policy-not-inspectable/" + c.Flavour, What: err.Error(), Case: c}}
@@ -103,20 +165,26 @@ func init() {
 			return "bad case: " + err.Error()
 		}
 		a, g, m, err := run(c)
-		s := fmt.Sprintf("flavour=%s MaxElapsedTime=%s attempts=%d gaveUp=%v err=%v\n", c.Flavour, m, a, g, err)
+		if c.Sibling {
+			a, g, err = runSibling(c)
+		}
+		s := fmt.Sprintf("flavour=%s sibling=%v MaxElapsedTime=%s attempts=%d gaveUp=%v err=%v\n", c.Flavour, c.Sibling, m, a, g, err)
 		for _, v := range monitor(c) {
 			s += fmt.Sprintf("MONITOR %s [%s]: %s\n", v.Property, v.Signature, v.What)
 		}
 		return s
 	}, Run: func(rng *rand.Rand, n int, corpusDir string, rep *core.Report) string {
-		rep.Rule = "for the Kinesis and S3 factories: the worker's own retry policy on a fake clock, failing attempts of 1 ms .. 2 min each, for up to 30 simulated minutes; non-trivial: every case (each runs hundreds of simulated attempts)"
+		rep.Rule = "for the Kinesis and S3 factories: the worker's own retry policy on a fake clock, failing attempts of 1 ms .. 2 min each, for up to 30 simulated minutes; half of the cases with a second worker of the same factory completing healthy batches meanwhile (its policy resets must not restart the failing worker's budget); non-trivial: every case (each runs hundreds of simulated attempts)"
 		for i := 0; i < n; i++ {
-			c := Case{Flavour: []string{"kinesis", "s3"}[i%2], StepMs: []int{1, 50, 1000, 7000, 120000}[rng.Intn(5)], MaxMinutes: 30}
+			c := Case{Flavour: []string{"kinesis", "s3"}[i%2], StepMs: []int{1, 50, 1000, 7000, 120000}[rng.Intn(5)], MaxMinutes: 30, Sibling: i%4 >= 2}
 			rep.CaseIndex = append(rep.CaseIndex, core.RawJSON(c))
 			rep.Evaluations++
 			rep.Nontrivial++
 			core.Bump(rep, "flavour:"+c.Flavour)
-			if len(rep.Samples) < 2 {
+			if c.Sibling {
+				core.Bump(rep, "with-healthy-sibling-worker")
+			}
+			if len(rep.Samples) < 2 && !c.Sibling {
 				a, g, m, _ := run(c)
 				rep.Samples = append(rep.Samples, map[string]interface{}{"case": c, "attempts": a, "gave_up": g, "max_elapsed": m.String()})
 			}
